@@ -236,7 +236,11 @@ def optimizer_range(chk, pid):
             chk.bad(r5, site, qn, "zero-point clamped although the range excludes zero", f"{qn}: the zero-point is clamped to [`{U(clamped[1]) if clamped[1] is not None else None}`, `{U(clamped[2]) if clamped[2] is not None else None}`] but -rmin/scale lies outside the code range for every one-sided group (rmin > 0 or rmax < 0): the codes of such a group saturate",
                     "a group whose values all have the same sign, e.g. values in [0.5, 1.5]: error ~ |rmin| instead of half a step")
             continue
-        if not okz:
+        half_trunc = zn[:3] == ["cast", "add", "div"] and isinstance(zs[1][1], ast.Constant) and zs[1][1].value == 0.5
+        if not okz and half_trunc and not both:
+            chk.bad(r5, site, qn, "zero-point rounded by truncation", f"{qn}: the zero-point is `(q + 0.5).to(int8)`: the cast truncates toward zero, which rounds to nearest only for q >= 0, but -rmin/scale is negative for every group whose minimum is positive (the range does not include zero)",
+                    "an all-positive group with its minimum above half a step (gains, softmax kernels): the zero-point is one too high, every code shifts up by one and the top bin saturates")
+        elif not okz:
             chk.unknown(r5, site, f"{qn}: zero-point `{U(z)[:80]}` is not round(-rmin / scale).to(int8) (stages {zn})")
         elif both:
             chk.ok(r5, site, f"{qn}: 0 <= -rmin/scale <= 2**bits - 1 since rmin <= 0 <= rmax (lemma L2): the int8 cast and the int8 subtraction stay in range")
